@@ -93,13 +93,22 @@ def run_shard(sh, rec):
         base = (d, sh["dtype"], par, round(xr, 2))
         meta = {"dim": d, "dtype": sh["dtype"], "shape": shape, "x_range": xr, "threads": nt}
 
+        ncall = [0]
+
         def solve(f):
             out = util.sentinel_like(rng, shape, real_t)
+            ncall[0] += 1
+            if ncall[0] % 3 == 2:
+                # the caller's arrays are non-contiguous views (interior of a padded allocation, every second cell, column-major):
+                # the solver only copies in and out, so layout must not matter
+                out = util.noncontiguous_copy(rng, out)
+                f = util.noncontiguous_copy(rng, f)
+                rec.count("solves_with_noncontiguous_arguments")
             f0 = f.copy()
             s.solve(solution_field=out, rhs_field=f)
-            rec.check(util.bits_equal(f, f0), "rhs-modified", f"solve modified its right-hand side {meta}", {"meta": meta})
+            rec.check(util.bits_equal(np.ascontiguousarray(f), np.ascontiguousarray(f0)), "rhs-modified", f"solve modified its right-hand side {meta}", {"meta": meta})
             rec.check(out.dtype == np.dtype(real_t), "dtype", f"solution dtype {out.dtype}", {"meta": meta})
-            return out
+            return np.ascontiguousarray(out)
 
         # 1. random rhs vs direct convolution
         for kind in ("noise", "big", "const", "spikes"):
@@ -209,7 +218,12 @@ def run_shard(sh, rec):
                     fv[zc] = 0
                     fv0 = fv.copy()
                     rec.count("vector_solves_with_zero_components")
+                if k % 3 == 2 or sh["idx"] % 3 == 0:
+                    uv = util.noncontiguous_copy(rng, uv)
+                    fv = util.noncontiguous_copy(rng, fv)
+                    rec.count("vector_solves_with_noncontiguous_arguments")
                 s.vector_field_solve(solution_vector_field=uv, rhs_vector_field=fv)
+                uv, fv = np.ascontiguousarray(uv), np.ascontiguousarray(fv)
                 ok = util.bits_equal(fv, fv0)
                 for c in range(3):
                     uc = solve(fv[c])
